@@ -247,6 +247,10 @@ impl World {
         *self.ref2label.get(&r).unwrap_or(&999_999_999)
     }
     fn pool_uid(n: u64) -> UniqueId {
+        if n == 3 {
+            // the all-zero id is an id like any other for a WeakDom
+            return UniqueId::new(0, 0, 0);
+        }
         UniqueId::new(n as u32, 1, n as i64)
     }
     /// Builds the InstanceBuilder for `b` through a mix of the builder API's entry points, chosen
